@@ -317,6 +317,15 @@ theorem handler_shape :
     end_liquidation = [.notCpi, .callEndReceivership, .premiumCheck] ∧
     end_deleverage = [.notCpi, .unsetFlag .inDeleverage, .callEndReceivership] := by decide
 
+/-- clearing the flag and the receiver, and the start-side health pre-condition and flag, are unconditional;
+    in end_liquidation only the premium check is conditional (it is waived for accounts under five dollars) -/
+theorem bracket_unconditional :
+    condAt end_receivership end_receivership_cond (· == .unsetFlag .inReceivership) = some 0 ∧
+    condAt end_receivership end_receivership_cond (· == .clearReceiver) = some 0 ∧
+    condAt end_receivership end_receivership_cond (· == .healthPreLiq) = some 0 ∧
+    allUnconditional start_receivership_cond = true ∧ allUnconditional start_liquidation_cond = true ∧
+    end_liquidation_cond = [0, 0, 1] := by decide
+
 /-- the checks of `validate_instructions` are all present, and it is called with the (start, end)
     discriminator pairs the model uses -/
 theorem validate_checks_present :
